@@ -65,6 +65,34 @@ def gen_request_spec(rng):
         o["metadata"] = True
     if o.get("add-iam-methods"):
         o.pop("add-iam-methods")
+    svcs = [s for f in spec["files"] for s in f.get("services", ())]
+    if svcs and rng.random() < 0.3:
+        # more services in the same file (each re-exposes one plain unary RPC of the first one)
+        import copy
+        home = next(f for f in spec["files"] if f.get("services"))
+        plain = [m for m in svcs[0]["methods"] if not m.get("client_streaming") and not m.get("server_streaming") and m.get("lro") is None
+                 and m["output"] != ".google.longrunning.Operation"]
+        for k in range(rng.randint(1, 3)):
+            if plain:
+                m = copy.deepcopy(rng.choice(plain))
+                m.pop("routing", None)
+                home["services"].append({"name": f"Aux{'ABC'[k]}Service", "host": svcs[0].get("host"), "methods": [m]})
+        svcs = [s for f in spec["files"] for s in f.get("services", ())]
+    if len(svcs) >= 2 and rng.random() < 0.5:
+        # several services on DIFFERENT default hosts, possibly one without any (sample / snippet names derive from hosts)
+        for k, s in enumerate(svcs):
+            s["host"] = f"{s['name'].lower()[:8]}{k}.example.com"
+        if rng.random() < 0.6:
+            rng.choice(svcs).pop("host", None)
+    if rng.random() < 0.4:
+        # file-level resource definitions (no message of their own), referenced from a request field
+        f0 = spec["files"][0]
+        f0.setdefault("resource_definitions", []).append({"type": "example.com/Shelf", "patterns": [rng.choice(["shelves/{shelf}", "projects/{project}/shelves/{shelf}"])]})
+        for f in spec["files"]:
+            for mm in f.get("messages", ()):
+                if mm["name"].startswith("Get") and mm["fields"] and "resource_ref" in mm["fields"][0]:
+                    mm["fields"].append({"name": "shelf", "number": 15, "type": "string", "resource_ref": "example.com/Shelf"})
+                    break
     # the less travelled plugin options (each changes which templates / branches render)
     if rng.random() < 0.2:
         o["lazy-import"] = True
